@@ -33,7 +33,12 @@ ASSUMPTIONS = ["the SDP solution need not be unique, so point values are compare
 
 @st.composite
 def _case(draw, thorough):
-    m = draw(gen.model(max_steps=2, allow_nonsym_lmi=False))
+    if draw(st.integers(0, 7)) == 0:
+        # a class that creates its own stationary point while generating constraints: the object it leaves on the function
+        # after the first solve must not change what later solves send
+        m = draw(gen.model_autostat())
+    else:
+        m = draw(gen.model(max_steps=2, allow_nonsym_lmi=False))
     nr = draw(st.integers(2, 5 if thorough else 4))
     rounds = []
     dropped = False
